@@ -44,7 +44,7 @@ CONFIGS: Dict[str, Dict[str, List[Dict[str, Any]]]] = {
         ],
     },
     "Minesweeper": {
-        "quick": [_c("default"), _c("r3c7m5", rows=3, cols=7, mines=5)],
+        "quick": [_c("default"), _c("r3c7m5", rows=3, cols=7, mines=5), _c("r4c5m3rw", rows=4, cols=5, mines=3, rewards=[2.0, -3.0, -5.0])],
         "thorough": [
             _c("default"), _c("r2c2m1", rows=2, cols=2, mines=1), _c("r3c7m5", rows=3, cols=7, mines=5),
             _c("r6c4m23", rows=6, cols=4, mines=23),
@@ -52,12 +52,13 @@ CONFIGS: Dict[str, Dict[str, List[Dict[str, Any]]]] = {
         ],
     },
     "RubiksCube": {
-        "quick": [_c("default"), _c("n2s3L7", cube_size=2, scrambles=3, time_limit=7)],
+        "quick": [_c("default"), _c("n2s3L7", cube_size=2, scrambles=3, time_limit=7), _c("n2s1L1", cube_size=2, scrambles=1, time_limit=1)],
         "thorough": [
             _c("default"), _c("n2s3L7", cube_size=2, scrambles=3, time_limit=7),
             _c("n4s7L20", cube_size=4, scrambles=7, time_limit=20), _c("n5s1L3", cube_size=5, scrambles=1, time_limit=3),
             _c("n3s0L2", cube_size=3, scrambles=0, time_limit=2), _c("n7s100L200", cube_size=7, scrambles=100, time_limit=200),
-            _c("n6s2L1", cube_size=6, scrambles=2, time_limit=1),
+            _c("n6s2L1", cube_size=6, scrambles=2, time_limit=1), _c("n2s1L1", cube_size=2, scrambles=1, time_limit=1),
+            _c("n3s2L2", cube_size=3, scrambles=2, time_limit=2),
         ],
     },
     "SlidingTilePuzzle": {
@@ -126,11 +127,13 @@ CONFIGS: Dict[str, Dict[str, List[Dict[str, Any]]]] = {
         ],
     },
     "Connector": {
-        "quick": [_c("default"), _c("u5a4L7", gen="uniform", grid_size=5, agents=4, time_limit=7)],
+        "quick": [_c("default"), _c("u5a4L7", gen="uniform", grid_size=5, agents=4, time_limit=7),
+                  _c("u5a4rwL20", gen="uniform", grid_size=5, agents=4, time_limit=20, reward_coeffs=[2.0, -0.5])],
         "thorough": [
             _c("default"), _c("w3a1L3", grid_size=3, agents=1, time_limit=3), _c("u5a4L7", gen="uniform", grid_size=5, agents=4, time_limit=7),
             _c("w5a8L20", grid_size=5, agents=8, time_limit=20), _c("u4a3L2", gen="uniform", grid_size=4, agents=3, time_limit=2),
             _c("w6a4L1", grid_size=6, agents=4, time_limit=1), _c("u6a4", gen="uniform", grid_size=6, agents=4),
+            _c("u5a4rwL20", gen="uniform", grid_size=5, agents=4, time_limit=20, reward_coeffs=[2.0, -0.5]),
         ],
     },
     "CVRP": {
@@ -398,6 +401,10 @@ def build(env: str, cfg: Dict[str, Any]):
         if "grid_size" in c:
             G = cg.UniformRandomGenerator if c.get("gen") == "uniform" else cg.RandomWalkGenerator
             kw["generator"] = G(c["grid_size"], c["agents"])
+        if "reward_coeffs" in c:
+            from jumanji.environments.routing.connector.reward import DenseRewardFn
+
+            kw["reward_fn"] = DenseRewardFn(connected_reward=c["reward_coeffs"][0], timestep_reward=c["reward_coeffs"][1])
         return E.Connector(**kw)
     if env == "CVRP":
         from jumanji.environments.routing.cvrp.generator import UniformGenerator
